@@ -181,7 +181,8 @@ impl<'tcx> CFormatter<'tcx> {
     /// Format a field name or parameter name
     // might need splitting in the future if we decide to support renames here
     pub fn fmt_param_name<'a>(&self, ident: &'a str) -> Cow<'a, str> {
-        ident.into()
+        // Struct fields are declared with this name as-is, so it must not be a C/C++ keyword
+        self.fmt_identifier(ident.into())
     }
 
     pub fn fmt_ptr<'a>(&self, ident: &'a str, mutability: hir::Mutability) -> Cow<'a, str> {
